@@ -126,43 +126,55 @@ def check_com(ctx):
 def check_std(ctx):
     std = ctx.p.cls(TMS)
     base = ctx.p.cls(TM)
+    from .common import bound_args
     for name, fi in sorted(std.methods.items()):
-        if name.startswith('__'):
+        if name.startswith('_'):
             continue
         bfi = base.methods.get(name)
         if bfi is None:
             ctx.ob('R4', fi, f'{name}', None, 'no base metric of the same name')
             continue
-        # calls metric.<x>(...) inside the method
-        calls = [c for c in calls_in(fi.node) if isinstance(c.func, ast.Attribute) and c.func.attr in base.methods]
+        it = ctx.entry(fi.qualname)
+        # calls of TrajectoryMetrics methods made while the Std method runs (directly, through helpers or getattr)
+        seen = set()
+        calls = []
+        for e in it.events:
+            if e['tag'] == 'call' and e['callee'].startswith(TM + '.') and e['callee'].split('.')[-1] in base.methods \
+                    and fi.qualname in e['ctx'] and not any(q.startswith(TM + '.') for q in e['ctx']):
+                k = (id(e['node']), e['callee'])
+                if k not in seen:
+                    seen.add(k)
+                    calls.append(e)
         if not calls:
-            ctx.ob('R4', fi, name, False, 'does not evaluate the base metric on the parts')
+            unknown = any(n_[0].startswith('call of unknown callee') for n_ in it.notes if n_[1] and n_[1].startswith(TMS))
+            ctx.ob('R4', fi, name, None if unknown else False, 'does not evaluate the base metric on the parts' if not unknown else
+                   'evaluation of the base metric on the parts not resolved')
             continue
-        for c in calls:
+        own = [a.arg for a in fi.node.args.kwonlyargs + fi.node.args.args[1:]]
+        for e in calls:
             problems = []
-            if c.func.attr != name:
-                problems.append(f'evaluates `{c.func.attr}` instead of `{name}` on the parts')
-            # forwards every keyword parameter of its own signature
-            own = [a.arg for a in fi.node.args.kwonlyargs + fi.node.args.args[1:]]
-            fwd = {k.arg: norm_text(k.value) for k in c.keywords if k.arg}
+            callee = e['callee'].split('.')[-1]
+            if callee != name:
+                problems.append(f'evaluates `{callee}` instead of `{name}` on the parts')
+            bound = bound_args(base.methods[callee], e['args'], e['kwargs'], skip_self=True)
             for p in own:
-                if fwd.get(p) != p:
+                v = bound.get(p)
+                okp = v is not None and ((v.is_param or '').endswith(f'{fi.qualname}:{p}') or bool(v.deps and f'param:{fi.name}.{p}' in v.deps))
+                if not okp:
                     problems.append(f'parameter `{p}` is not forwarded to the base metric')
-            for k, v in fwd.items():
-                if k not in own:
-                    problems.append(f'base metric called with `{k}={v}` which is not a parameter of the Std method')
-            ctx.ob('R4', fi, c, not problems, '; '.join(problems) if problems else f'TrajectoryMetrics.{name} on every part, parameters forwarded')
+            for k, v in bound.items():
+                if k not in own and not (v.is_default):
+                    problems.append(f'base metric called with `{k}` which is not a parameter of the Std method')
+            ctx.ob('R4', fi, e['node'], not problems, '; '.join(problems) if problems else f'TrajectoryMetrics.{name} on every part, parameters forwarded')
         # unit labels equal to the base method's label
-        blabels = {n.args[1].value for n in ast.walk(bfi.node) if isinstance(n, ast.Call) and norm_text(n.func).endswith('FloatWithUnit')
-                   and len(n.args) > 1 and isinstance(n.args[1], ast.Constant)}
-        # the label of the value the base method returns
         bit = ctx.entry(bfi.qualname)
         ret_label = bit.result.unit_label if bit.result is not None else None
-        for n in ast.walk(fi.node):
-            if isinstance(n, ast.Call) and norm_text(n.func).endswith('FloatWithUnit') and len(n.args) > 1 and isinstance(n.args[1], ast.Constant):
-                lab = n.args[1].value
-                if ret_label is None:
-                    ctx.ob('R4', fi, n, None, 'unit of the base metric unknown')
-                else:
-                    ctx.ob('R4', fi, n, lab == ret_label, f'labelled {lab!r} like the base metric' if lab == ret_label else
-                           f'mean/std labelled {lab!r} but TrajectoryMetrics.{name} returns {ret_label!r}')
+        for e in uniq_events(it, {'float_with_unit'}, under(fi.qualname)):
+            lab = e['label']
+            if lab is None:
+                ctx.ob('R4', fi, e['node'], None, 'unit label of the mean / std not a constant')
+            elif ret_label is None:
+                ctx.ob('R4', fi, e['node'], None, 'unit of the base metric unknown')
+            else:
+                ctx.ob('R4', fi, e['node'], lab == ret_label, f'labelled {lab!r} like the base metric' if lab == ret_label else
+                       f'mean/std labelled {lab!r} but TrajectoryMetrics.{name} returns {ret_label!r}')
